@@ -336,7 +336,8 @@ def check(ctx):
     spans = []
     impl = []
     for seq in seqs:
-        recs, viol = run_impl(seq)
+        with np.errstate(all="ignore"):
+            recs, viol = run_impl(seq)
         if viol:
             ctx.violation(viol[0], viol[1], viol[2])
         kinds = tuple((rec[0][0], rec[1]) for rec in recs)
